@@ -56,6 +56,14 @@ func goErrorFor(name string) error {
 	panic("bad error name " + name)
 }
 
+// detachedClient forwards every request with a context of its own, the way an intermediary does:
+// the upstream request does not end when the caller's context does.
+type detachedClient struct{ inner connect.HTTPClient }
+
+func (d detachedClient) Do(req *http.Request) (*http.Response, error) {
+	return d.inner.Do(req.Clone(context.Background()))
+}
+
 // noReadFailingDo fails like a refused connection: the request body is never read.
 type noReadFailingDo struct{ err error }
 
@@ -889,6 +897,93 @@ func streamCancel(c *Ctx) {
 		for _, ending := range []string{"cancel", "deadline"} {
 			cwriteOp(c, fmt.Sprintf("cwrite proto=%s stored=14 via=transport ctx=%s", proto, ending))
 		}
+		// K12: a handler whose own context ended (server-side cancel or timeout; the client's
+		// context is alive) returns that context's error: the client sees the same
+		// classification - also a client with a small read limit, also in the unary Connect
+		// form where the error travels as an HTTP status and a JSON body
+		for _, kind := range []string{"unary", "server"} {
+			for _, which := range []string{"canceled", "deadline_exceeded"} {
+				for _, limit := range []int{0, 32} {
+					if limit > 0 && kind != "unary" {
+						continue // in a stream the terminator is an envelope and subject to the limit like any other
+					}
+					kind, which, limit := kind, which, limit
+					scs = append(scs, scenario{"cancel-handler-classification", fmt.Sprintf("handler returns its context's error (%s), %s %s, client read limit %d", which, kind, proto, limit), func() (string, bool) {
+						ret := context.Canceled
+						if which == "deadline_exceeded" {
+							ret = context.DeadlineExceeded
+						}
+						var h http.Handler
+						if kind == "unary" {
+							h = connect.NewUnaryHandler("/s/m", func(ctx context.Context, r *connect.Request[[]byte]) (*connect.Response[[]byte], error) {
+								return nil, ret
+							}, connect.WithCodec(rawCodec{"raw"}))
+						} else {
+							h = connect.NewServerStreamHandler("/s/m", func(ctx context.Context, r *connect.Request[[]byte], s *connect.ServerStream[[]byte]) error {
+								return ret
+							}, connect.WithCodec(rawCodec{"raw"}))
+						}
+						srv := startServer(h, true)
+						defer srv.Close()
+						cl := connect.NewClient[[]byte, []byte](srv.Client(), srv.URL+"/s/m", append(protoOpts(proto), connect.WithCodec(rawCodec{"raw"}), connect.WithReadMaxBytes(limit))...)
+						var err error
+						if kind == "unary" {
+							_, err = cl.CallUnary(context.Background(), connect.NewRequest(&[]byte{1}))
+						} else {
+							st, cerr := cl.CallServerStream(context.Background(), connect.NewRequest(&[]byte{1}))
+							if cerr != nil {
+								return "call: " + cerr.Error(), false
+							}
+							for st.Receive() {
+							}
+							err = st.Err()
+							_ = st.Close()
+						}
+						return codeName(err), codeName(err) == which
+					}})
+				}
+			}
+		}
+		// K13: the deadline that reaches the handler is this call's, also when the Request value
+		// carried a longer one from an earlier call and the handler cannot see the client go away
+		// (an intermediary keeps the upstream request alive): the handler's context ends when the
+		// call's deadline passes
+		scs = append(scs, scenario{"cancel-handler-ctx", "Request value used with a 1h deadline, then with 300ms, through a transport that hides the client's disconnect, unary " + proto, func() (string, bool) {
+			ended := make(chan time.Duration, 4)
+			h := connect.NewUnaryHandler("/s/m", func(ctx context.Context, r *connect.Request[[]byte]) (*connect.Response[[]byte], error) {
+				if r.Header().Get("X-Wait") == "" {
+					return connect.NewResponse(&[]byte{1}), nil
+				}
+				t0 := time.Now()
+				select {
+				case <-ctx.Done():
+					ended <- time.Since(t0)
+				case <-time.After(3 * time.Second):
+					ended <- -1
+				}
+				return nil, ctx.Err()
+			}, connect.WithCodec(rawCodec{"raw"}))
+			srv := startServer(h, true)
+			defer srv.Close()
+			cl := connect.NewClient[[]byte, []byte](detachedClient{srv.Client()}, srv.URL+"/s/m", append(protoOpts(proto), connect.WithCodec(rawCodec{"raw"}))...)
+			req := connect.NewRequest(&[]byte{1})
+			ctx1, cancel1 := context.WithTimeout(context.Background(), time.Hour)
+			_, _ = cl.CallUnary(ctx1, req)
+			cancel1()
+			req.Header().Set("X-Wait", "1")
+			ctx2, cancel2 := context.WithTimeout(context.Background(), 300*time.Millisecond)
+			defer cancel2()
+			_, err := cl.CallUnary(ctx2, req)
+			select {
+			case d := <-ended:
+				if d < 0 {
+					return "the handler's context was still alive 3s after a 300ms deadline", false
+				}
+				return fmt.Sprintf("handler context ended after %v, client: %s", d.Round(10*time.Millisecond), codeName(err)), codeName(err) == "deadline_exceeded"
+			case <-time.After(5 * time.Second):
+				return "the handler never reported", false
+			}
+		}})
 		// K6: the context ends between the prefix write and the payload write of one Send
 		scs = append(scs, scenario{"cancel-mid-send", "context cancelled between the two writes of one Send, " + proto, func() (string, bool) {
 			return cancelMidSend(proto)
@@ -1116,6 +1211,61 @@ func streamLife(c *Ctx) {
 				_ = s.CloseRequest()
 				_ = s.CloseResponse()
 				return fmt.Sprintf("send=%s receive=%s", codeName(serr), got), codeName(serr) == want && got == want
+			}})
+		}
+		// L2b: the client abandons a server stream with megabytes still unread (more than the
+		// library is willing to drain): Close returns, the response body is closed, and the
+		// handler - held up by flow control until then - returns
+		for _, h2 := range []bool{true, false} {
+			h2 := h2
+			if !h2 && proto == "grpc" {
+				continue
+			}
+			scs = append(scs, scenario{"life-body-closed", fmt.Sprintf("server stream of 12 x 1 MiB abandoned after the first message (%s, h2=%v)", proto, h2), func() (string, bool) {
+				returned := make(chan struct{})
+				h := connect.NewServerStreamHandler("/s/m", func(ctx context.Context, r *connect.Request[[]byte], s *connect.ServerStream[[]byte]) error {
+					defer close(returned)
+					big := make([]byte, 1<<20) // incompressible: response compression must not shrink it
+					x := uint64(88172645463325252)
+					for i := range big {
+						x ^= x << 13
+						x ^= x >> 7
+						x ^= x << 17
+						big[i] = byte(x)
+					}
+					for i := 0; i < 12; i++ {
+						if err := s.Send(&big); err != nil {
+							return err
+						}
+					}
+					return nil
+				}, connect.WithCodec(rawCodec{"raw"}))
+				srv := startServer(h, h2)
+				defer srv.Close()
+				cc := &countingClient{inner: srv.Client()}
+				cl := connect.NewClient[[]byte, []byte](cc, srv.URL+"/s/m", append(protoOpts(proto), connect.WithCodec(rawCodec{"raw"}))...)
+				st, err := cl.CallServerStream(context.Background(), connect.NewRequest(&[]byte{1}))
+				if err != nil {
+					return "call: " + err.Error(), false
+				}
+				if !st.Receive() {
+					return "first Receive failed: " + fmt.Sprint(st.Err()), false
+				}
+				closed := make(chan error, 1)
+				go func() { closed <- st.Close() }()
+				select {
+				case <-closed:
+				case <-time.After(5 * time.Second):
+					return "Close did not return within 5s", false
+				}
+				handlerDone := true
+				select {
+				case <-returned:
+				case <-time.After(5 * time.Second):
+					handlerDone = false
+				}
+				got := fmt.Sprintf("bodies=%d closes=%d handler-returned=%v", atomic.LoadInt32(&cc.bodies), atomic.LoadInt32(&cc.closes), handlerDone)
+				return got, atomic.LoadInt32(&cc.closes) >= 1 && handlerDone
 			}})
 		}
 		// L2: whatever happens to the response, its body is closed once the call is closed
